@@ -31,7 +31,7 @@ ASSUMPTIONS = ['door/box reference semantics from the statement and the Door doc
 EXHAUSTIVE_NOTE = 'product status x colour x held x relative pose x action (3x3 grids); full reachable graph of key-door 5x5 layouts (one per door row)'
 REQUIRED = {'quick': {'fn.actuate_door': 3000, 'fn.actuate_box': 3000, 'product.cases': 2000, 'event.locked_opened': 20,
                       'event.locked_refused': 50, 'event.closed_opened': 50, 'event.box_opened': 50,
-                      'graph.transitions': 2000, 'history.steps': 500, 'flags.door': 3, 'product.with_obstacles': 100}}
+                      'graph.transitions': 2000, 'history.steps': 500, 'flags.door': 3, 'product.with_obstacles': 100, 'stateful.steps': 400}}
 ASPECTS = ('door', 'box', 'key')
 
 
@@ -78,6 +78,46 @@ def product(ctx):
                         dyndrive.apply_fn(ctx, name, dyndrive.copy_state(s), action)
                 if idx % 53 == 0:
                     ctx.sample('product', {'subject': sn, 'held': hn, 'pose': pn})
+
+
+def stateful_path(ctx, n):
+    """the same rules through the stateful interface (InnerEnv.step), incl. repeated ACTUATE on nested boxes: what
+    env.state shows after each step must be what the reference predicts (deep comparison, box contents included)"""
+    from .. import refmodel
+    names = ['move_agent', 'turn_agent', 'actuate_door', 'actuate_box', 'pickndrop']
+    chain = [{'name': n} for n in names]
+    for k in range(n):
+        rng = gen.rng_for('C10stateful', ctx.seed, ctx.shard, k)
+        h, w = rng.randint(2, 4), rng.randint(2, 4)
+        state = dyndrive.floor_state(h, w, h - 1, rng.randrange(w), gen.ORIENTATIONS[0], NoneGridObject())
+        fy, fx = gen.front_of(state)
+        c = rng.choice(list(Color))
+        subject = rng.choice([Box(Box(Key(c))), Box(Box(Box(Floor()))), Box(Door(Door.Status.CLOSED, c)), Door(Door.Status.CLOSED, c),
+                              Door(Door.Status.LOCKED, c), Box(Key(c))])
+        state.grid[fy, fx] = subject
+        if rng.random() < 0.5:
+            state.agent.grid_object = Key(c)
+        env = compose.assemble((h, w), [Floor, Wall, Door, Key, Box, Exit], list(Color), list(Action),
+                               compose.build('transition', {'name': 'chain', 'transition_functions': chain}),
+                               compose.build('reward', {'name': 'living_reward'}), compose.build('terminating', {'name': 'reach_exit'}),
+                               compose.build('observation', {'name': 'fully_transparent', 'area': [[-1, 0], [-1, 1]]}),
+                               gen.Area((-1, 0), (-1, 1)), lambda rng=None, s=state: dyndrive.copy_state(s))
+        env.reset()
+        expected = enc.es(env.state)
+        actions = [Action.ACTUATE] * 3 + [rng.choice(list(Action)) for _ in range(3)]
+        for t, a in enumerate(actions):
+            model = refmodel.ref_chain(env.state, names, a)
+            ok, res = call_real(env.step, a)
+            ctx.ev()
+            ctx.hit('stateful.steps')
+            if not ok:
+                break
+            if enc.es(env.state) != model:
+                ctx.violation('box', 'stateful.state_differs_from_reference',
+                              f'stateful step #{t} ({a.name}) facing {enc.eo(subject)}: env.state is not the state the door/box rules '
+                              f'predict (cell in front now {enc.eo(env.state.grid[fy, fx]) if gen.in_grid(env.state, fy, fx) else None})',
+                              'stateful_case', {'k': [ctx.seed, ctx.shard, k]})
+                break
 
 
 def count_events(ctx):
@@ -271,6 +311,7 @@ def run(ctx):
                 types=[Floor, Wall, Door, Key, Box, Exit, MovingObstacle, Telepod, MovingObstacle]):
             pass
         ctx.sample('sweep_state', {'state': enc.render(state), 'category': cat})
+        stateful_path(ctx, ctx.pick(150, 2500))
         keydoor_graphs(ctx, sink)
         histories(ctx, sink, ctx.pick(2, 30), ctx.pick(150, 600))
 
@@ -282,6 +323,9 @@ def replay(ctx, kind, payload):
         dynmon.replay_call(ctx, payload, ASPECTS)
     elif kind == 'flags':
         door_flags(ctx)
+    elif kind == 'stateful_case':
+        ctx.seed, ctx.shard = payload['k'][0], payload['k'][1]
+        stateful_path(ctx, payload['k'][2] + 1)
     elif kind in ('graph', 'history'):
         sink = dynmon.Sink(ctx, ASPECTS)
         with Patch() as patch:
